@@ -35,8 +35,9 @@ vars == <<rpc, gen, memberID, g, fn, tracked, apc, held, started, cgdone, closeR
 Fns(n) == { f \in DOMAIN fn : f[1] = n }
 Live(n) == \E f \in Fns(n) : fn[f] = "running"
 \* Lax: drop the guards that the code does not really have (a join already on its way when Close is called still
-\* creates a Generation; the heartbeat loop's select may take the ticker once more after the context is done).  The
-\* strict forms are the design intent; MC_lax.cfg checks the same invariants with the guards dropped (Lax <- LaxOn),
+\* creates a Generation; the heartbeat loop's select may take the ticker once more after the context is done; the
+\* selects of the run loop on { cg.done ; gen.done } and { cg.done ; back-off timer } may take the other ready branch).
+\* The strict forms are the design intent; MC_lax.cfg checks the same invariants with the guards dropped (Lax <- LaxOn),
 \* which is what the recorded traces show (GroupTrace counts JoinOK_lax / HeartbeatSend_lax).
 Lax == FALSE
 LaxOn == TRUE
@@ -200,14 +201,20 @@ HeartbeatStop(n) ==
   /\ UNCHANGED <<rpc, gen, memberID, tracked, apc, held, started, cgdone, closeRet, lastErr, faults, leaves, hbOut>>
 
 \* nextGeneration: select { cg.done ; gen.done } fired -> gen.close() begins: close(done) if needed
-GenCloseBegin ==
+\* (lax: when both channels are ready the select may take gen.done although cg.done is closed: nextGeneration then
+\* returns nil and the loop joins once more before it notices the Close)
+GenCloseBeginx(lax) ==
   /\ rpc \in {"live", "offer"} /\ (g[gen].done \/ cgdone)
   /\ rpc = "offer" => cgdone
   /\ g' = [g EXCEPT ![gen].done = TRUE, ![gen].closed = TRUE, ![gen].closeWaiting = (g[gen].routines > 0)]
-  /\ lastErr' = IF cgdone THEN "closed" ELSE "none"
+  /\ \E err \in {"closed", "none"} :
+        /\ err = "closed" => cgdone
+        /\ err = "none" => (rpc = "live" /\ g[gen].done /\ (lax \/ ~cgdone))
+        /\ lastErr' = err
   /\ rpc' = "closing"
   /\ Ev("closeBegin", gen)
   /\ UNCHANGED <<gen, memberID, fn, tracked, apc, held, started, cgdone, closeRet, faults, leaves, hbOut>>
+GenCloseBegin == GenCloseBeginx(Lax)
 
 \* gen.close() returns once `joined` is closed (or at once when no routine was running)
 GenCloseEnd ==
@@ -235,11 +242,16 @@ ReportErr ==
         /\ rpc' = IF lastErr = "other" THEN "backoff" ELSE "join"
   /\ UNCHANGED <<gen, memberID, g, fn, tracked, held, started, cgdone, closeRet, faults, leaves, hbOut>>
 
-Backoff ==
+\* select { cg.done -> return ; backoff timer }  (lax: the select may take the timer although cg.done is closed)
+Backoffx(lax) ==
   /\ rpc = "backoff"
-  /\ rpc' = IF cgdone THEN "exited" ELSE "join"
+  /\ \E to \in {"exited", "join"} :
+        /\ to = "exited" => cgdone
+        /\ to = "join" => (lax \/ ~cgdone)
+        /\ rpc' = to
   /\ Ev("backoffOver", gen)
   /\ UNCHANGED <<gen, memberID, g, fn, tracked, apc, held, started, cgdone, closeRet, lastErr, faults, leaves, hbOut>>
+Backoff == Backoffx(Lax)
 
 \* join attempted while closed: coordinator()/joinGroup are not interruptible, but the loop exits at the next select
 JoinWhenClosed ==
